@@ -145,3 +145,219 @@ def solver_branch_stats(im, outs):
     st["equal_values"] = len(set(zs)) < len(zs)
     st["trials"] = len(zs)
     return st
+
+
+# =============================================================================================
+# evolvent stream
+# =============================================================================================
+def gen_evolvent_lines(r, tier):
+    """image / inverse / integer-layer commands; returns (lines, meta, coverage)"""
+    lines, meta = [], []
+    # exhaustive node / numbr tables (whole domain, N = 2..5)
+    for n in (2, 3, 4, 5):
+        for d in range(2 ** n):
+            lines.append(f"ev.node {n} {d}"); meta.append(("node", n, d))
+        for us in itertools.product((1, -1), repeat=n):
+            lines.append(f"ev.numbr {n} " + " ".join(str(u) for u in us)); meta.append(("numbr", n, us))
+    # exhaustive cells for small N*m: every subinterval, left end, an interior point, and the inverse of the image
+    lim = 12 if tier == "quick" else 16
+    for n in (2, 3, 4, 5):
+        for m in range(1, 9):
+            if n * m > lim:
+                continue
+            lo, hi = gen_box(r, n)
+            cells = (2 ** n) ** m
+            for i in range(cells):
+                for x in (i / cells, (i + r.random() * 0.999) / cells):
+                    lines.append(f"ev.image {n} {m} {fs2h(lo)} {fs2h(hi)} {f2h(x)}"); meta.append(("image", n, m, x))
+            lines.append(f"ev.image {n} {m} {fs2h(lo)} {fs2h(hi)} {f2h(1.0)}"); meta.append(("image", n, m, 1.0))
+    # integer model vs implementation on the cube (digits -> cell), random digits
+    for _ in range(300 if tier == "quick" else 3000):
+        n = r.randint(2, 5); m = r.randint(1, 50 // n)
+        ds = [r.randrange(2 ** n) for _ in range(m)]
+        lines.append(f"ev.cubeY {n} " + " ".join(map(str, ds))); meta.append(("cubeY", n, m, ds))
+    # random (N, m, x, box) incl. N = 1, x near 1, x = 1, dyadic x
+    for _ in range(2500 if tier == "quick" else 20000):
+        n = r.randint(1, 5); m = r.randint(1, 50 // n)
+        lo, hi = gen_box(r, n)
+        u = r.random()
+        if u < 0.1:
+            x = 1.0 - r.random() * 4e-9
+        elif u < 0.15:
+            x = 1.0
+        elif u < 0.3:
+            x = r.randrange(2 ** min(n * m, 52)) / 2 ** min(n * m, 52)
+        elif u < 0.35:
+            x = 0.0
+        else:
+            x = r.random()
+        lines.append(f"ev.image {n} {m} {fs2h(lo)} {fs2h(hi)} {f2h(x)}"); meta.append(("image", n, m, x))
+        # inverse at a random box point and at cell boundaries
+        if r.random() < 0.5:
+            y = [l + r.random() * (h - l) for l, h in zip(lo, hi)]
+        else:
+            cells = 2 ** m
+            y = [l + (h - l) * (r.randrange(cells + 1) / cells if r.random() < 0.5 else r.random()) for l, h in zip(lo, hi)]
+            y = [min(max(v, l), h) for v, l, h in zip(y, lo, hi)]
+        lines.append(f"ev.inverse {n} {m} {fs2h(lo)} {fs2h(hi)} {fs2h(y)}"); meta.append(("inverse", n, m, y))
+    return lines, meta
+
+
+def corr_evolvent(r, tier):
+    lines, meta = gen_evolvent_lines(r, tier)
+    mo = run_model(lines)
+    io, _ = implmod.run_impl(lines)
+    bad = [Mismatch("evolvent", meta[i], i, lines[i], mo[i], io[i]) for i in range(len(lines)) if mo[i] != io[i]]
+    kinds = {}
+    for mt in meta:
+        kinds[mt[0]] = kinds.get(mt[0], 0) + 1
+    return {"evaluations": len(lines), "kinds": kinds, "mismatches": bad,
+            "samples": [{"command": lines[i], "output": mo[i]} for i in (0, len(lines) // 2, len(lines) - 1)]}
+
+
+# =============================================================================================
+# search-data stream
+# =============================================================================================
+def gen_sd_script(r, length, dual, maxlen, malformed=False):
+    """op script for SearchData / SearchDataDualQueue. Coordinates from a small pool so that equal
+    coordinates / keys occur; hints are correct unless `malformed`."""
+    xs_pool = [round(r.random(), 2) for _ in range(8)] + [0.25, 0.5, 0.75]
+    key_pool = [0.0, 1.0, 1.0, 2.5, -1.0, 3.0, 0.5]
+
+    def key():
+        return r.choice(key_pool) if r.random() < 0.6 else round(r.uniform(-3, 3), 2)
+    lines = [f"sd.new {1 if dual else 0} {maxlen if maxlen is not None else '-'}",
+             f"sd.first {f2h(0.0)} {f2h(key())} {f2h(key())} {f2h(1.0)} {f2h(key())} {f2h(key())}"]
+    items = [(0.0, 0), (1.0, 1)]     # (x, id) sorted by traversal (equal x: new goes after its equals -> before first greater)
+    for _ in range(length):
+        u = r.random()
+        if u < 0.45:
+            x = r.choice(xs_pool) if r.random() < 0.7 else r.random()
+            if not malformed:
+                if not (0.0 < x < 1.0):
+                    continue
+            else:
+                if r.random() < 0.3:
+                    x = r.choice([-0.5, 0.0, 1.0, 1.5])
+            # correct hint: first item with coordinate > x
+            pos = next((i for i, (xx, _) in enumerate(items) if xx > x), None)
+            usehint = r.random() < 0.6
+            if malformed and r.random() < 0.3 and items:
+                hint = r.choice(items)[1]
+            else:
+                hint = items[pos][1] if pos is not None else None
+            if usehint and hint is not None:
+                lines.append(f"sd.insert {f2h(x)} {f2h(key())} {f2h(key())} {hint}")
+            else:
+                lines.append(f"sd.insert {f2h(x)} {f2h(key())} {f2h(key())} -")
+            if pos is not None and pos > 0:
+                items.insert(pos, (x, len(items)))
+            elif malformed:
+                lines.append("sd.trav")
+                return lines      # an error is expected here: stop the script after it
+        elif u < 0.6:
+            lines.append("sd.popg")
+        elif u < 0.68 and dual:
+            lines.append("sd.popl")
+        elif u < 0.74:
+            lines.append("sd.refill")
+        elif u < 0.78:
+            lines.append("sd.clear")
+        elif u < 0.86:
+            lines.append(f"sd.setg {r.randrange(len(items))} {f2h(key())}")
+        elif u < 0.9 and dual:
+            lines.append(f"sd.setl {r.randrange(len(items))} {f2h(key())}")
+        elif u < 0.95:
+            lines.append(f"sd.find {f2h(r.choice(xs_pool + [-1.0, 0.0, 1.0, 2.0]))}")
+        else:
+            lines.append("sd.trav"); lines.append("sd.queues")
+    lines += ["sd.trav", "sd.queues"]
+    return lines
+
+
+def truncate_after_error(lines, outs):
+    """a script is compared only up to and including its first `error` (the Python object is then
+    partially mutated; the model stops)"""
+    for i, o in enumerate(outs):
+        if o == "error":
+            return i + 1
+    return len(lines)
+
+
+def corr_sd(r, tier):
+    scripts = []
+    nrand = 400 if tier == "quick" else 4000
+    for _ in range(nrand):
+        dual = r.random() < 0.5
+        maxlen = r.choice([None, None, 1, 2, 3, 5, 8])
+        scripts.append(gen_sd_script(r, r.randint(3, 60 if tier == "quick" else 300), dual, maxlen))
+    for _ in range(nrand // 4):
+        scripts.append(gen_sd_script(r, r.randint(2, 20), r.random() < 0.5, r.choice([None, 2, 4]), malformed=True))
+    # all short sequences over a small alphabet
+    alpha = [lambda: f"sd.insert {f2h(0.5)} {f2h(1.0)} {f2h(2.0)} -", lambda: f"sd.insert {f2h(0.25)} {f2h(2.0)} {f2h(1.0)} -",
+             lambda: f"sd.insert {f2h(0.5)} {f2h(2.0)} {f2h(0.0)} 1", lambda: "sd.popg", lambda: "sd.refill", lambda: "sd.clear",
+             lambda: f"sd.setg 1 {f2h(5.0)}", lambda: "sd.popl"]
+    depth = 3 if tier == "quick" else 5
+    for dual in (False, True):
+        for maxlen in (None, 2):
+            for seq in itertools.product(range(len(alpha)), repeat=depth):
+                if not dual and 7 in seq:
+                    continue
+                lines = [f"sd.new {1 if dual else 0} {maxlen if maxlen is not None else '-'}",
+                         f"sd.first {f2h(0.0)} {f2h(0.0)} {f2h(0.0)} {f2h(1.0)} {f2h(1.0)} {f2h(1.0)}"]
+                for a in seq:
+                    lines.append(alpha[a]()); lines.append("sd.queues")
+                lines.append("sd.trav")
+                scripts.append(lines)
+    bad, total, errs = [], 0, 0
+    allm = []
+    spans = []
+    for sc in scripts:
+        spans.append((len(allm), len(sc))); allm += sc
+    mo_all = run_model(allm)
+    for (st, ln), sc in zip(spans, scripts):
+        io, _ = implmod.run_impl(sc)
+        mo = mo_all[st:st + ln]
+        k = min(truncate_after_error(sc, io), truncate_after_error(sc, mo))
+        total += k
+        if "error" in io[:k]:
+            errs += 1
+        for i in range(k):
+            if mo[i] != io[i]:
+                bad.append(Mismatch("searchdata", sc[:i + 1], i, sc[i], mo[i], io[i]))
+                break
+    return {"evaluations": total, "scripts": len(scripts), "scripts_with_error_path": errs, "mismatches": bad,
+            "samples": [scripts[0][:8], scripts[-1]]}
+
+
+# =============================================================================================
+# solver stream runner
+# =============================================================================================
+def corr_solver(r, ncases, variants=None, case_fn=None):
+    """variants: list of kwargs dict generators; returns mismatch list and branch statistics"""
+    stats, bad, metas = {}, [], []
+    allm, alle, spans = [], [], []
+    for i in range(ncases):
+        kw = {}
+        if case_fn:
+            kw = case_fn(r, i)
+        lines, meta = gen_solver_case(r, **kw)
+        ml, exp, im = run_solver_case(lines)
+        st = solver_branch_stats(im, exp)
+        for k, v in st.items():
+            if v is True:
+                stats[k] = stats.get(k, 0) + 1
+        stats["dim%d" % meta["n"]] = stats.get("dim%d" % meta["n"], 0) + 1
+        stats["trials_total"] = stats.get("trials_total", 0) + st["trials"]
+        spans.append((len(allm), len(ml), meta)); allm += ml; alle += exp
+        metas.append(meta)
+    out = run_model(allm)
+    for st, ln, meta in spans:
+        for k in range(st, st + ln):
+            if out[k] != alle[k]:
+                bad.append(Mismatch("solver", meta, k - st, allm[k], out[k], alle[k]))
+                break
+    if any("oracle-exhausted" in o for o in out):
+        stats["oracle_exhausted"] = sum(1 for o in out if "oracle-exhausted" in o)
+    return {"evaluations": len(allm), "cases": ncases, "stats": stats, "mismatches": bad,
+            "samples": [metas[0], metas[-1]] if metas else []}
